@@ -457,7 +457,7 @@ Definition scan_dense (c : cfg) (p : bparams) (dc : dcols) (m : msg) (q : list o
 (* ---------- scanPrimitiveGroup ---------- *)
 Record gst := mkG { g_d : dstate; g_way : way; g_rel : relation; g_q : list obj }.
 
-(* outcome of a plain Node group: an error (fix 887d3f2; before it an explicit panic) *)
+(* outcome of a plain Node group: an error (fix 9a46487; before it an explicit panic) *)
 Definition plain_nodes {A} : result A := Err E_PLAIN.
 
 Definition reset_way (w : way) : way := mkWay 0 info0 (firstn 0 (w_tags w)) (firstn 0 (w_nodes w)).
